@@ -571,6 +571,8 @@ func (e *SpecEnv) isNil(v Value) (*Term, error) {
 			return Is("nil_"+t.Sort, t), nil
 		case t.Sort == "Int":
 			return Eq(t, IntT(0)), nil // map reference
+		case t.Sort == "Opaque":
+			return Eq(t, VarT("opaque_nil", "Opaque")), nil
 		}
 	}
 	return nil, fmt.Errorf("nil comparison on %T", v)
@@ -1033,10 +1035,63 @@ func (e *SpecEnv) quant(kind string, n *ast.CallExpr) (Value, error) {
 		}
 		return Or(parts...), nil
 	}
+	// a range [lo, X+1) over a sequence whose element X was just stored (the shape append produces):
+	// split off the last index, so that the remaining quantifier talks about the sequence before
+	// the store -- the form in which the solver's triggers match what is known about it.
+	if !unbounded {
+		if base, c := splitOffset(hi); base != nil && c == 1 {
+			if rest, found := dropStoreAt(body, bv, base); found {
+				last := substTerm(body, []*Term{bv}, []*Term{base})
+				rng2 := And(Cmp("<=", lo, bv), Cmp("<", bv, base))
+				if kind == "forall" {
+					return And(Implies(Cmp("<=", lo, base), last), Quant("forall", []*Term{bv}, Implies(rng2, rest))), nil
+				}
+				return Or(And(Cmp("<=", lo, base), last), Quant("exists", []*Term{bv}, And(rng2, rest))), nil
+			}
+		}
+	}
 	if kind == "forall" {
 		return Quant("forall", []*Term{bv}, Implies(rng, body)), nil
 	}
 	return Quant("exists", []*Term{bv}, And(rng, body)), nil
+}
+
+// dropStoreAt rewrites select(store(A, at, V), bv) to select(A, bv) everywhere in t (valid where
+// bv != at) and reports whether the pattern occurred.
+func dropStoreAt(t *Term, bv, at *Term) (*Term, bool) {
+	switch t.Kind {
+	case KApp:
+		if t.Op == "select" && len(t.Args) == 2 && sameTerm(t.Args[1], bv) {
+			a := t.Args[0]
+			if a.Kind == KApp && a.Op == "store" && sameTerm(a.Args[1], at) {
+				inner, _ := dropStoreAt(a.Args[0], bv, at)
+				return Select(inner, bv, t.Sort), true
+			}
+		}
+		args := make([]*Term, len(t.Args))
+		found := false
+		for i, a := range t.Args {
+			r, f := dropStoreAt(a, bv, at)
+			args[i] = r
+			found = found || f
+		}
+		if !found {
+			return t, false
+		}
+		return rebuild(t.Op, t.Sort, args), true
+	case KQuant:
+		for _, b := range t.Bound {
+			if sameTerm(b, bv) {
+				return t, false
+			}
+		}
+		r, f := dropStoreAt(t.Args[0], bv, at)
+		if !f {
+			return t, false
+		}
+		return Quant(t.Op, t.Bound, r), true
+	}
+	return t, false
 }
 
 // appended(new, old, x1, ..., xn): new is old followed by exactly x1..xn.
@@ -1194,7 +1249,9 @@ func (e *SpecEnv) mapExpr(kind string, n *ast.CallExpr) (Value, error) {
 	if kind == "has" {
 		return And(Neq(m, IntT(0)), Select(Sel(cs+"_has", c), k, "Bool")), nil
 	}
-	return Select(Sel(cs+"_val", c), k, vs), nil
+	val := Select(Sel(cs+"_val", c), k, vs)
+	e.x.assumeWellFormed(e.cur(), val, mt.Elem())
+	return val, nil
 }
 
 // mapTypeOf finds the Go map type of a selector chain x.f.g by walking struct types.
